@@ -36,6 +36,19 @@ MANIFEST = {
     "technique": "proof (Coq) + correspondence by differential execution + implementation-level soundness oracle (validate, then evaluate)",
 }
 
+# the constructors inside TypecheckProofs3.in_fragment (kept in sync by hand with coq/proofs/TypecheckProofs3.v)
+PROVED_FRAGMENT = {
+    "predicate": "TypecheckProofs3.in_fragment (syntactic)",
+    "inside": ["Lit (all literals)", "Var (principal, action, resource, context)", "And", "Or (capabilities on both sides)",
+               "UnApp Not", "UnApp Neg", "BinApp Eq", "BinApp Add", "BinApp Sub", "BinApp Mul",
+               "If c x y (x, y boolean-rooted: And/Or/Not/Eq/HasAttr/bool literal)",
+               "HasAttr p a / GetAttr p a with p an access path (Var followed by GetAttr), records and entities, "
+               "required and optional (capability-guarded) attributes", "Like", "Is"],
+    "outside": ["Slot", "Unknown", "If with non-boolean-rooted branches", "UnApp IsEmpty", "BinApp Less/LessEq/In/Contains/"
+                "ContainsAll/ContainsAny/GetTag/HasTag", "ExtCall", "GetAttr/HasAttr on non-path expressions", "SetE", "RecordE"],
+    "theorems_for_both_modes": True,
+}
+
 ALLOWED_ERRORS = {"EntityDoesNotExist", "IntegerOverflow", "FailedExtensionFunctionExecution"}
 N_ENVS = 20
 
@@ -481,6 +494,9 @@ def new_stats():
 
 
 def run(rep, tier, seed):
+    import resource
+    cpu0 = resource.getrusage(resource.RUSAGE_CHILDREN)
+    cpu_self0 = resource.getrusage(resource.RUSAGE_SELF)
     ob, dis, details, failures = fw.check_props(PROP_FILE, THEOREMS) if THEOREMS else (0, 0, {}, [])
     harness = fw.build_harness()
     driver = fw.build_model_driver()
@@ -507,10 +523,14 @@ def run(rep, tier, seed):
     nx = fw.coq_crosscheck([x for x, _ in first_cmds], [y for _, y in first_cmds], PROP)
     for f in failures:
         rep.violation({"property": PROP, "kind": "proof obligation no longer checks", "detail": f}, no_failing_input=True)
+    cpu1 = resource.getrusage(resource.RUSAGE_CHILDREN)
+    cpu_self1 = resource.getrusage(resource.RUSAGE_SELF)
     rep.coverage = {
         "obligations": ob, "discharged": dis,
         "checker_cmd": "make -C coq props/%s.vo (coqc 8.16.1) + Print Assumptions" % PROP_FILE,
         "trusted_base": fw.TRUSTED_BASE, "theorems": details,
+        "cpu_seconds_children(harness+model+coqc+cargo)": round(cpu1.ru_utime + cpu1.ru_stime - cpu0.ru_utime - cpu0.ru_stime, 1),
+        "cpu_seconds_python": round(cpu_self1.ru_utime + cpu_self1.ru_stime - cpu_self0.ru_utime - cpu_self0.ru_stime, 1),
         "evaluations": stats["evaluations"], "distinct_nontrivial": len(distinct),
         "rule": "%d random schemas + 1 hand schema; per schema %d policies from the type-directed generator vp/tgen.py (0.7 well-typed "
                 "with optional attributes/tags behind documented guards, else one typing fault of %d kinds), each strict-accepted "
@@ -525,6 +545,7 @@ def run(rep, tier, seed):
         "traces_paired_with_typed_expr": stats["traces_paired"], "traces_not_paired": stats["traces_unpaired"],
         "request_env_not_matched": stats["env_unmatched"],
         "construct_histogram": feats,
+        "proved_fragment": PROVED_FRAGMENT,
         "correspondence_envs_compared": stats["corr_compared"],
         "correspondence_subexpression_types_compared": stats["corr_nodes"], "correspondence_mismatches": stats["corr_mismatch"],
         "correspondence_filtered_unmodelled": stats["corr_unmodelled"],
